@@ -236,6 +236,10 @@ def c05_rf12(run):
 def c05_rf10(run):
     rf_abi.rf10(run)
     run.min_instances('RF10', 24)
+    rf_abi.rf10b(run)
+    run.min_instances('RF10b', 12)
+    rf_abi.rf10c(run)
+    run.min_instances('RF10c', 6)
     rf_dispatch.rf7e(run, units=('gen',), expect=1)
     rf_dispatch.rf7f(run)
     run.min_instances('RF7f', 30)
@@ -244,6 +248,8 @@ def c05_rf10(run):
 def c06_rf10(run):
     rf_abi.rf10(run)
     run.min_instances('RF10', 24)
+    rf_abi.rf10b(run)
+    run.min_instances('RF10b', 12)
     rf_dispatch.rf7f(run)
     run.min_instances('RF7f', 30)
 
